@@ -12,3 +12,26 @@ func VerifChunkSizeForIndex(fileSize int64, chunkSize uint32, idx uint32) uint32
 func VerifMakeVirtualStreamID(connIndex int, streamID uint64) uint64 {
 	return makeVirtualStreamID(connIndex, streamID)
 }
+
+// ---- control codec
+
+func VerifWriteFileBegin(s Stream, m FileBegin) error           { return writeFileBegin(s, m) }
+func VerifWriteCredit(s Stream, m Credit) error                 { return writeCredit(s, m) }
+func VerifWriteCreditBatch(s Stream, m CreditBatch) error       { return writeCreditBatch(s, m) }
+func VerifWriteFileEnd(s Stream, m FileEnd) error               { return writeFileEnd(s, m) }
+func VerifWriteFileDone(s Stream, m FileDone) error             { return writeFileDone(s, m) }
+func VerifWriteFileResumeInfo(s Stream, m FileResumeInfo) error { return writeFileResumeInfo(s, m) }
+func VerifWriteResumeRequest(s Stream, m ResumeRequest) error   { return writeResumeRequest(s, m) }
+func VerifWriteDataStreams(s Stream, m DataStreams) error       { return writeDataStreams(s, m) }
+func VerifWriteControlEnd(s Stream) error                       { return writeControlEnd(s) }
+func VerifReadControlMessage(s Stream) (byte, any, error)       { return readControlMessage(s) }
+func VerifValidateRelPath(p string) error                       { return validateRelPath(p) }
+func VerifValidateFilename(p string) error                      { return validateFilename(p) }
+
+var (
+	VerifErrInvalidRecordType = ErrInvalidRecordType
+	VerifErrRelPathTooLong    = ErrRelPathTooLong
+	VerifErrInvalidRelPath    = ErrInvalidRelPath
+)
+
+const VerifControlMagic = controlMagic
